@@ -632,7 +632,6 @@ fn main() {
                 _ => (2000, 1500),
             };
             let mut rep = Report::default();
-            let s = seed.to_string();
             // corpus first
             beh::corpus(&mut rep);
             // in chunks, so that a tree on which many cases crash or hang ends
